@@ -36,7 +36,7 @@ def run_ho(rep, pid, thorough):
     pp.run(rep, pid, cfgs, modes='ctl-unsafe,ctl-safe', module='HOGen', replay_cmd='replay-multi', class_props=HO_CLASS_PROPS, prefix='multi.')
 
 
-SINGLE_CLASS_PROPS = dict(CLASS_PROPS, **{'values': ['C04', 'C07', 'C20'], 'torn': ['C03', 'C14'], 'sub': ['C12'], 'closed': ['C06']})
+SINGLE_CLASS_PROPS = dict(CLASS_PROPS, **{'values': ['C04', 'C05', 'C07', 'C20'], 'torn': ['C03', 'C14'], 'sub': ['C12'], 'closed': ['C06']})
 
 
 def run_single(rep, pid, thorough):
